@@ -398,7 +398,7 @@ def sub_enum(acc, shard, nshards, tier, seed):
                         case = {"items": [{"t": "h", "level": 1},
                                           {"t": "include", "offset": off, "levels": [L1, L2, L2], "explicit0": True,
                                            "between": [(kind, NL), None, (kind, NL)]},
-                                          {"t": "h", "level": 2}]}
+                                          {"t": "h", "level": 2 + (NL + L2) % 3}]}      # (after the include: level 2, 3 or 4)
                         for v in check_case(acc, case):
                             if kn.matches(v):
                                 acc.known_hits[v["signature"]] += 1
